@@ -247,15 +247,11 @@ def _sweep(acc, rng, c, mujoco, mjw, mjm0, st, xml0):
     mujoco.mj_forward(mjm0, md)
     mjw.forward(m0, d)
     out = _outputs(mujoco, mjm0, md, d, (posvel, accm))
-    if "sensor" in fl and ns and not d.sensordata.numpy().any():
-      # exact signature of a deviation of the unchanged code that is not a wrong flag test: forward() clears sensordata before the (skipped) sensor
-      # stage, MuJoCo keeps the previous values. Anything else than all-zero is compared with MuJoCo (the sentinel must survive).
-      out.pop("sensordata-posvel", None)
-      out.pop("sensordata-acc", None)
-      acc.hit("sweep:sensor-disabled:sensordata-all-zero(MuJoCo-keeps-previous)")
-    if not energy and has_esens and "sensor" not in fl:
-      out.pop("energy")   # recorded deviation C07-energy-flag-off (d.energy zeroed after the sensor evaluated it); sensordata is still compared
-      acc.hit("sweep:energy-off-with-energy-sensor:d.energy-not-compared")
+    # (regression, repaired defect 5c84e49: forward() used to clear sensordata before the skipped sensor stages when SENSOR is disabled;
+    #  the sentinel must survive exactly as in MuJoCo — compared like every other output)
+    if "sensor" in fl and ns:
+      acc.hit("sweep:sensor-disabled:sentinel-compared")
+    energy_known = (not energy) and has_esens and "sensor" not in fl
     acc.evals += 1
     for nm, (a, b, tol) in out.items():
       if k < nbase:
@@ -275,6 +271,12 @@ def _sweep(acc, rng, c, mujoco, mjw, mjm0, st, xml0):
       if nm in reported:
         continue
       reported.add(nm)
+      if nm == "energy" and energy_known:
+        # recorded deviation (also C07-energy-flag-off): with the ENERGY flag off and an energy sensor present d.energy is zeroed after
+        # the sensor evaluated it, MuJoCo keeps the sensor-computed value; reported when observed, under its own id
+        _find(acc, f"forward() with disabled={fl}, ENERGY flag off and an energy sensor: d.energy {np.asarray(a).round(5).tolist()} vs MuJoCo {np.asarray(b).round(5).tolist()} (sensordata agree)",
+              "forward._energy_pos/_energy_vel, sensor.energy_pos", "energy-flag-off-zeroed", xml=xml0, flags=fl)
+        continue
       site = SMOOTH[nm][0] if nm in SMOOTH else SITE[nm]
       _find(acc, f"forward() with disabled={fl} energy={energy}: {nm} differs from mj_forward with the same flags (max |d| {err:.3g}, reference magnitude {float(np.abs(b).max()) if np.size(b) else 0:.3g}; "
                f"agrees with no flag changed): here {np.asarray(a).round(5).tolist()[:8]} MuJoCo {np.asarray(b).round(5).tolist()[:8]}", site, "flags-forward-" + nm,
